@@ -265,8 +265,10 @@ func ShimBody(shimPath string) (func(resp *http.Response) error, error) {
 			// We have nothing to do on an empty response
 			return nil
 		}
-		contentType := strings.ToLower(resp.Header.Get(contentTypeHeader))
-		if !strings.Contains(contentType, "html") {
+		// Only the media type counts, not its parameters (a JSON document does not
+		// become HTML by naming an HTML file or schema in a parameter).
+		mediaType := strings.ToLower(strings.SplitN(resp.Header.Get(contentTypeHeader), ";", 2)[0])
+		if !strings.Contains(mediaType, "html") {
 			// We only want to modify HTML responses
 			return nil
 		}
